@@ -18,20 +18,11 @@ import (
 // MaxDictCap, and reject their neighbours. Finite-domain evaluation (CE).
 func ruleValidDictCap(c *Ctx, r *Report, prefix string) {
 	rule := prefix + "CE-VALIDDICT"
-	fn := c.Func("lzma", "validDictCap")
+	fn, eval := validDictCapEval(c)
 	if fn == nil {
 		return
 	}
 	bad, n := "", 0
-	eval := func(v int64) (bool, bool) {
-		in := NewInterp(c)
-		res := in.Call(fn, []aval{aInt(v, types.Typ[types.Int])})
-		if !res.OK || len(res.Rets) != 1 {
-			return false, false
-		}
-		b, ok := res.Rets[0].Bool()
-		return b, ok
-	}
 	for e := uint(12); e <= 30; e++ {
 		for _, v := range []int64{1 << e, 1<<e + 1<<(e-1)} {
 			n++
@@ -49,6 +40,45 @@ func ruleValidDictCap(c *Ctx, r *Report, prefix string) {
 		}
 	}
 	r.Check(bad == "", rule, FnName(fn), c.Pos(fn.Pos()), "accepts 2^n and 2^n+2^(n-1) for n = 12..30 and rejects their neighbours ("+itoa(n)+" values)", bad)
+}
+
+// validDictCapEval: the finite-domain evaluator of "is this dictionary size recognised" - lzma.validDictCap
+// itself, or, when it has been folded into its caller, lzma.ValidHeader on the 13-byte header
+// {0x5d, dictCap little endian, size -1}.
+func validDictCapEval(c *Ctx) (*ssa.Function, func(v int64) (bool, bool)) {
+	fn := c.Func("lzma", "validDictCap")
+	if fn == nil {
+		return nil, nil
+	}
+	sig := fn.Signature
+	direct := sig.Params().Len() == 1 && types.Identical(sig.Params().At(0).Type(), types.Typ[types.Int])
+	return fn, func(v int64) (bool, bool) {
+		in := NewInterp(c)
+		var args []aval
+		if direct {
+			args = []aval{aInt(v, types.Typ[types.Int])}
+		} else if sig.Params().Len() == 1 && types.Identical(sig.Params().At(0).Type(), types.NewSlice(types.Typ[types.Byte])) {
+			hdr := []byte{0x5d, byte(v), byte(v >> 8), byte(v >> 16), byte(v >> 24), 0xff, 0xff, 0xff, 0xff, 0xff, 0xff, 0xff, 0xff}
+			args = []aval{aBytes(in, hdr, sig.Params().At(0).Type())}
+		} else {
+			return false, false
+		}
+		res := in.Call(fn, args)
+		if !res.OK || len(res.Rets) != 1 {
+			return false, false
+		}
+		b, ok := res.Rets[0].Bool()
+		return b, ok
+	}
+}
+
+func aBytes(in *Interp, data []byte, t types.Type) aval {
+	arr := make([]*cell, len(data))
+	for i, b := range data {
+		arr[i] = in.newCellOf(types.Typ[types.Byte])
+		arr[i].v = aInt(int64(b), types.Typ[types.Byte])
+	}
+	return aval{k: kSlice, arr: arr, lo: 0, hi: len(data), typ: t}
 }
 
 // ---- WR-SAME-SOURCE: the xz Reader keeps reading from the source its first stream reader got ----
